@@ -18,6 +18,9 @@ int __real_gsl_integration_qng(const gsl_function *, double, double, double, dou
 int __real_pthread_mutex_lock(pthread_mutex_t *);
 int __real_pthread_mutex_unlock(pthread_mutex_t *);
 int __real_pthread_mutex_trylock(pthread_mutex_t *);
+int __real___cxa_guard_acquire(void *);
+void __real___cxa_guard_release(void *);
+void __real___cxa_guard_abort(void *);
 }
 
 namespace sim {
@@ -32,6 +35,7 @@ struct Task
   volatile int go = 0;
   int state = 0; // 0 runnable, 1 blocked on a mutex, 2 finished
   pthread_mutex_t * waiting_on = nullptr;
+  void * waiting_guard = nullptr;
   std::function<void()> body;
   i64 kind_count[16] = {0};
   i64 steps = 0;
@@ -51,6 +55,8 @@ struct World
   i64 max_steps = 0;
   std::map<pthread_mutex_t *, int> owner;
   std::map<pthread_mutex_t *, std::vector<u64>> mutex_vc;
+  std::map<void *, int> guard_owner;              // function-local static being initialised by that task
+  std::map<void *, std::vector<u64>> guard_vc;
   Access last_write{-1, 0};
   std::vector<Access> reads_since_write;
   Result res;
@@ -163,6 +169,9 @@ void * thread_main(void * arg)
 } // namespace
 
 int current_task() { return t_task ? t_task->id : -1; }
+static bool g_io_points = false;
+void set_io_points(bool on) { g_io_points = on; }
+bool io_points() { return g_io_points; }
 i64 total_qng_calls() { return g_total_qng; }
 i64 total_qng_fails() { return g_total_qng_fail; }
 
@@ -317,7 +326,7 @@ int __wrap_pthread_mutex_lock(pthread_mutex_t * m)
       continue;
     }
     // owned by another simulated task: block
-    t->state = 1; t->waiting_on = m;
+    t->state = 1; t->waiting_on = m; t->waiting_guard = nullptr;
     w->res.mutex_blocks++;
     Task * next = pick_runnable(*w, -1, t);
     if (!next) {
@@ -358,5 +367,43 @@ int __wrap_pthread_mutex_unlock(pthread_mutex_t * m)
   sched_point(SP_MUTEX, 1);
   return rc;
 }
+
+// ---- function-local statics: __cxa_guard_acquire blocks a second thread until the first has finished the
+// initialiser. A task preempted INSIDE an initialiser (e.g. at a read of a lazily loaded list) would otherwise
+// leave the next task blocked in libsupc++ where the scheduler cannot see it.
+int __wrap___cxa_guard_acquire(void * g)
+{
+  Task * t = t_task; World * w = g_world;
+  if (!t || !w) return __real___cxa_guard_acquire(g);
+  while (true) {
+    auto it = w->guard_owner.find(g);
+    if (it != w->guard_owner.end() && it->second != t->id) {
+      t->state = 1; t->waiting_guard = g; t->waiting_on = nullptr;
+      w->res.mutex_blocks++;
+      Task * next = pick_runnable(*w, -1, t);
+      if (!next) { w->res.deadlock = true; wake(&w->ctl_go); park(&t->go); }
+      switch_to(*w, t, next);
+      continue;
+    }
+    int r = __real___cxa_guard_acquire(g);
+    if (r) w->guard_owner[g] = t->id; // this task runs the initialiser
+    else {
+      auto & gv = w->guard_vc[g];
+      if (gv.size() == t->vc.size()) for (size_t i = 0; i < gv.size(); i++) if (gv[i] > t->vc[i]) t->vc[i] = gv[i];
+    }
+    return r;
+  }
+}
+static void guard_done(void * g)
+{
+  Task * t = t_task; World * w = g_world;
+  if (!t || !w) return;
+  w->guard_vc[g] = t->vc;
+  t->vc[(size_t)t->id]++;
+  w->guard_owner.erase(g);
+  for (Task * o : w->tasks) if (o->state == 1 && o->waiting_guard == g) { o->state = 0; o->waiting_guard = nullptr; }
+}
+void __wrap___cxa_guard_release(void * g) { __real___cxa_guard_release(g); guard_done(g); }
+void __wrap___cxa_guard_abort(void * g) { __real___cxa_guard_abort(g); guard_done(g); }
 
 } // extern "C"
